@@ -148,6 +148,7 @@ class Ctx:
         self.patches = []
         self.warnings = []
         self.unknown_branches = 0
+        self.cones = None  # when a list: every comparison |re + i im| <= L is recorded as (re, im, L, strict)
         self.seed = seed
         if mode == "sym":
             self.solver = z3.Solver()
@@ -1124,11 +1125,12 @@ def abstract_uf(exprs, f):
 class SymNorm:
     """sqrt of a non-negative symbolic term, compared lazily as  L >= 0 /\\ sq <= L^2  (no sqrt variable)."""
 
-    __slots__ = ("sq", "_m")
+    __slots__ = ("sq", "_m", "re", "im")
 
-    def __init__(self, sq):
+    def __init__(self, sq, re=None, im=None):
         self.sq = sq
         self._m = None
+        self.re, self.im = re, im  # set when this is |re + i im| (lets harnesses weaken the cone constraint linearly)
 
     def __deepcopy__(self, memo):
         return self
@@ -1153,6 +1155,9 @@ class SymNorm:
             return (self.sq < L.sq) if strict else (self.sq <= L.sq)
         l = toz3(L)
         s = toz3(self.sq)
+        c = Ctx.cur
+        if c is not None and c.cones is not None and self.re is not None:
+            c.cones.append((self.re, self.im, L, strict))
         if strict:
             return SymBool(z3.And(l > 0, s < l * l))
         return SymBool(z3.And(l >= 0, s <= l * l))
@@ -1282,7 +1287,7 @@ class SymComplex:
             return abs(self.im)
         s = self.re * self.re + self.im * self.im
         if isinstance(s, SymReal):
-            return SymNorm(s)
+            return SymNorm(s, self.re, self.im)
         return math.sqrt(s)
 
     def __repr__(self):
